@@ -197,7 +197,7 @@ def scalarwise(spec, pre=None, scalar_pre=None, ret="S"):
         a = [x.lane(0) for x in ctx.args]
         R = ctx.ret = Arg("S", ctx.tid, None, scalar="__CPROVER_return_value")
         if ret == "b":
-            ctx.ensures.append("((__CPROVER_return_value != 0) == %s)" % ctx.spec(spec, *a))
+            ctx.ensures.append("(__CPROVER_return_value == (%s ? 1 : 0))" % ctx.spec(spec, *a))   # a bool is 0 or 1
         else:
             ctx.ensures.append(ctx.eq(R.lane(0), ctx.spec(spec, *a)))
         if pre:
